@@ -347,7 +347,8 @@ def main():
         "hooks": {
             "guard": "bytecodealliance_wit_bindgen_verif",
             "enable": "RUSTFLAGS='--cfg bytecodealliance_wit_bindgen_verif' (set in /verif/harness/.cargo/config.toml; "
-                      "all harness crates path-depend on /repo)",
+                      "all harness crates path-depend on /repo; C08's probe crate sets the same flags in its own .cargo/config.toml, "
+                      "vlib/rustprobe.py HOOK_FLAGS)",
             "baseline_off_cmd": "cd /repo && cargo test --workspace --no-fail-fast --offline",
             "source_commits": hook_commits,
             "add_only": True,
